@@ -63,6 +63,47 @@ Definition pd_wf (pd : parsed) : bool :=
   forallb (fun a => item_wf (ItAlias a)) (p_aliases pd) &&
   forallb (fun c => item_wf (ItConst c)) (p_consts pd).
 
+(* ---- Go: every string that can reach convert_acronyms_to_uppercase (go.rs:579) is ASCII ----
+   The names Go's writers convert: a struct's renamed id, an enum's / alias's / variant's / field's original id, the
+   tag key, and the printed TYPE of every field and tuple variant (ids of user types, type_mappings results, a
+   #[typeshare(go(type = ".."))] override).  Constants and alias targets are not converted. *)
+Definition str_ascii (s : str) : bool := forallb is_ascii s.
+
+Fixpoint rtype_ascii (t : rtype) : bool :=
+  match t with
+  | RSimple id => str_ascii id
+  | RGeneric id ps => str_ascii id && forallb rtype_ascii ps
+  | RVec x | RArray x _ | RSlice x | ROption x => rtype_ascii x
+  | RHashMap k v => rtype_ascii k && rtype_ascii v
+  | RPrim _ => true
+  end.
+
+Definition go_field_ascii (f : rfield) : bool :=
+  str_ascii (original (fid f)) &&
+  match type_override f Go with Some o => str_ascii o | None => rtype_ascii (fty f) end.
+
+Definition go_variant_ascii (v : rvariant) : bool :=
+  str_ascii (original (vid (variant_shared v))) &&
+  match v with
+  | VUnit _ => true
+  | VTuple t _ => rtype_ascii t
+  | VAnon fs _ => forallb go_field_ascii fs
+  end.
+
+Definition go_item_ascii (it : ritem) : bool :=
+  match it with
+  | ItStruct s => str_ascii (renamed (sid s)) && forallb go_field_ascii (sfields s)
+  | ItEnum e =>
+    str_ascii (original (eid (enum_shared e))) &&
+    match e with EAlgebraic tag _ _ => str_ascii tag | EUnit _ => true end &&
+    forallb go_variant_ascii (evariants (enum_shared e))
+  | ItAlias a => str_ascii (original (aid a))
+  | ItConst _ => true
+  end.
+
+Definition go_input_ascii (mappings : tmap) (pd : parsed) : bool :=
+  forallb (fun kv => str_ascii (snd kv)) mappings && forallb go_item_ascii (items_of pd).
+
 (* ---- the single-file pipeline, as the whole-pipeline driver command gen_src (ocaml/drv_gen.ml) composes it:
    parser::parse on the file; nothing to generate / the parse errors are reported (exit 1) / reconcile, then the
    back end's generate_types ---- *)
@@ -82,6 +123,13 @@ Definition single_file_run {C : Type} (gen : C -> parsed -> outcome str)
     | e :: _ => Err e                                 (* the parse errors of the file are the diagnostic *)
     | [] => omap Some (gen c (reconcile_single pd))
     end
+  end.
+
+(* what Go is handed in that run consists of ASCII strings (vacuously so when nothing is generated) *)
+Definition go_run_ascii (uc : Unicode.unicode) (tstr : str -> option Syntax.ty) (T : list str) (mappings : tmap) (f : Syntax.file) : bool :=
+  match parse_file uc tstr T f with
+  | Ok (Some pd) => go_input_ascii mappings (reconcile_single pd)
+  | _ => true
   end.
 
 (* ---- topsort: dependency collection completes for every item ---- *)
